@@ -194,36 +194,52 @@ func (c *Ctx) rulesR6misc(only string, a *coreAnchors) {
 			return
 		}
 		n := 0
+		// conjunctive multi-state tests over a list accumulated in this function
+		var conj []*ssa.Call
+		for _, bb := range f.Blocks {
+			for _, ins := range bb.Instrs {
+				call, ok := ins.(*ssa.Call)
+				if !ok {
+					continue
+				}
+				nm := calleeName(&call.Call)
+				if nm != "IsIdx" && nm != "Is" {
+					continue
+				}
+				for _, arg := range call.Call.Args {
+					if _, isSl := arg.Type().Underlying().(*types.Slice); !isSl {
+						continue
+					}
+					if flowsFrom(arg, func(x ssa.Value) bool {
+						c2, ok := x.(*ssa.Call)
+						if !ok {
+							return false
+						}
+						bi, ok := c2.Call.Value.(*ssa.Builtin)
+						return ok && bi.Name() == "append"
+					}) {
+						conj = append(conj, call)
+					}
+				}
+			}
+		}
 		for _, w := range writesOfFieldIn(f, fErr) {
 			n++
 			bad := ""
-			for _, g := range guardsOf(w.Instr.Block()) {
-				valueTree(g.Cond, 10, func(v ssa.Value) {
-					call, ok := v.(*ssa.Call)
-					if !ok {
-						return
-					}
-					nm := calleeName(&call.Call)
-					if nm != "IsIdx" && nm != "Is" {
-						return
-					}
-					for _, arg := range call.Call.Args {
-						if _, isSl := arg.Type().Underlying().(*types.Slice); !isSl {
-							continue
-						}
-						acc := flowsFrom(arg, func(x ssa.Value) bool {
-							c2, ok := x.(*ssa.Call)
-							if !ok {
-								return false
-							}
-							bi, ok := c2.Call.Value.(*ssa.Builtin)
-							return ok && bi.Name() == "append"
-						})
-						if acc {
-							bad = nm
+			for _, cj := range conj {
+				// the test takes part in a branch on the way to the store
+				decides := false
+				if cj.Referrers() != nil {
+					for _, r := range *cj.Referrers() {
+						switch r.(type) {
+						case *ssa.If, *ssa.Phi, *ssa.BinOp, *ssa.UnOp:
+							decides = true
 						}
 					}
-				})
+				}
+				if decides && canReach(cj, w.Instr) {
+					bad = calleeName(&cj.Call)
+				}
 			}
 			c.check(bad == "", "C16.anyerr", fmt.Sprintf("hParseMsg: Errors store#%d is decided per error state", n), w.Instr.Pos(),
 				"the error test calls "+bad+" with a list accumulated over all error states: it holds only when all of them are active")
